@@ -5,6 +5,7 @@ Property theorems only. Model: RqModel/Model/Auth.lean (tied to
 auth/credential_store.go by the C19 correspondence run).
 -/
 import RqModel.Model.Auth
+import RqModel.Gen.Auth
 namespace C19
 open RqModel.Auth
 
@@ -137,6 +138,52 @@ theorem absent_keys_mean_empty (cs : List Cred) (u : String) :
   simp only [load, resolve, List.map_append, List.map_cons, List.map_nil]
   rw [lookup_build_store, lookup_build_perms]
   simp [decodeInto, zeroCred]
+
+/-- `last_definition_wins` at the level of `Load` (JSON elements with optional keys): the
+last element naming `u` decides, with absent keys meaning empty. -/
+theorem last_definition_wins_load (cs : List Cred) (u : String) (c : Cred)
+    (h : cs.reverse.find? (fun c => (decodeInto zeroCred c).user = u) = some c) :
+    lookup (load {} cs).store u = some (c.pass.getD "") ∧
+    lookup (load {} cs).perms u = some (c.perms.getD []) := by
+  have hr : (resolve cs).reverse.find? (fun f => f.user = u) = some (decodeInto zeroCred c) := by
+    simp only [resolve, ← List.map_reverse, List.find?_map]
+    have : ((fun f : FullCred => decide (f.user = u)) ∘ decodeInto zeroCred)
+        = (fun c => decide ((decodeInto zeroCred c).user = u)) := rfl
+    rw [this, h]; rfl
+  have := last_definition_wins (resolve cs) u _ hr
+  simpa [load, decodeInto, zeroCred] using this
+
+/-- The decision for a user depends only on that user's LAST definition and on the all-users
+entry's last definition: two files that agree on those give the same answer to every query. -/
+theorem aa_depends_on_last_definitions (cs ds : List FullCred) (u p perm : String)
+    (hu : cs.reverse.find? (fun c => c.user = u) = ds.reverse.find? (fun c => c.user = u))
+    (ha : cs.reverse.find? (fun c => c.user = AllUsers) = ds.reverse.find? (fun c => c.user = AllUsers)) :
+    aa (build {} cs) u p perm = aa (build {} ds) u p perm := by
+  have hs : lookup (build {} cs).store u = lookup (build {} ds).store u := by
+    rw [lookup_build_store, lookup_build_store, hu]
+  have hpu : lookup (build {} cs).perms u = lookup (build {} ds).perms u := by
+    rw [lookup_build_perms, lookup_build_perms, hu]
+  have hpa : lookup (build {} cs).perms AllUsers = lookup (build {} ds).perms AllUsers := by
+    rw [lookup_build_perms, lookup_build_perms, ha]
+  unfold aa hasAnyPerm hasPerm check
+  simp only [List.any_cons, List.any_nil, Bool.or_false, hs, hpu, hpa]
+
+/-! ### regenerated facts (auth/credential_store.go, re-extracted on every run) -/
+
+/-- the two constants the model fixes by hand are the source's -/
+theorem code_constants :
+    RqModel.Gen.Auth.allUsers = some AllUsers ∧ RqModel.Gen.Auth.permAll = some PermAll := by decide
+
+/-- `Load` decodes every element into a fresh `Credential` (the repaired behaviour the model has) -/
+theorem code_load_fresh_value : RqModel.Gen.Auth.credDeclaredInsideLoop = some true := by decide
+
+/-- `AA` makes exactly the three calls the model's `aa` makes, in this order: the all-users
+grant, the password check, the user's grant (the empty-username guard sits between the
+first two and is exercised by the correspondence run). -/
+theorem code_aa_calls :
+    RqModel.Gen.Auth.aaCalls =
+      ["c.HasAnyPerm(AllUsers, perm, PermAll)", "c.Check(username, password)",
+       "c.HasAnyPerm(username, perm, PermAll)"] := by decide
 
 /-! ### non-vacuity -/
 example :
